@@ -424,7 +424,7 @@ def run_check(mod, tier, seed, runs=None, jobs=None, wall=None, selfcheck=True, 
 
     agg = {'evals': 0, 'runs': 0, 'probes': collections.Counter(), 'faults': collections.Counter(),
            'sigs': set(), 'known': collections.Counter(), 'samples': [], 'harness_errors': [],
-           'violations': [], 'digests': {}, 'extra': collections.Counter(), 'known_examples': {}}
+           'violations': [], 'digests': {}, 'extra': collections.Counter(), 'known_examples': {}, 'maxima': {}}
 
     k_self = plan.get('selfcheck', 8)
     rs = random.Random(H(seed, 'selfcheck'))
@@ -443,6 +443,9 @@ def run_check(mod, tier, seed, runs=None, jobs=None, wall=None, selfcheck=True, 
             agg['faults'][k] += v
         for k, v in (out.get('extra') or {}).items():
             agg['extra'][k] += v
+        for k, v in (out.get('maxima') or {}).items():
+            if v > agg['maxima'].get(k, float('-inf')):
+                agg['maxima'][k] = v
         if len(agg['sigs']) < SIG_CAP:
             for s in out.get('sigs') or ([out['sig']] if out.get('sig') else []):
                 agg['sigs'].add(int(s[:12], 16))
@@ -542,6 +545,7 @@ def run_check(mod, tier, seed, runs=None, jobs=None, wall=None, selfcheck=True, 
         'fault_kinds_fired': dict(sorted(agg['faults'].items())),
         'reach_probes': dict(sorted(agg['probes'].items())),
         'counters': dict(sorted(agg['extra'].items())),
+        'maxima': dict(sorted(agg['maxima'].items())),
         'distinct_measure': getattr(mod, 'DISTINCT_MEASURE', 'distinct event-log signatures of non-trivial runs'),
         'simulated_time': 'not applicable: no code path of the library reads a clock or arms a timer',
         'components': {'real': ['lib/yaml/*.py from the working tree of /repo', 'yaml._yaml (Cython binding) + LibYAML'],
@@ -569,6 +573,7 @@ def run_check(mod, tier, seed, runs=None, jobs=None, wall=None, selfcheck=True, 
         print(' faults fired:', dict(agg['faults']))
         print(' probes:', dict(agg['probes']))
         print(' counters:', dict(agg['extra']))
+        print(' maxima:', dict(agg['maxima']))
         print(' c back-end:', cov['c_backend'])
     if agg['harness_errors'] and exit_code == 0:
         idx, tb = agg['harness_errors'][0]
